@@ -661,7 +661,9 @@ class Engine:
         """Emit the current simulation state.
         Only variables with ``_emit=True`` are emitted.
         """
-        data = self.state.emit_data()
+        # emit_data() returns None when the store has nothing to emit
+        # (e.g. an empty composite)
+        data = self.state.emit_data() or {}
         data.update({
             'time': self.global_time})
         emit_config = {
